@@ -39,6 +39,7 @@ THEOREMS = [
     "C14_page_exact", "C14_page_dom",
     "C14_hash_is_links_fragment", "C14_findlinks_exact",
     "C14_pin_file_is_link_file", "C14_pin_history_files_are_link_files",
+    "C14_links_are_relative_to_the_page_served",
 ]
 RULE = ("four generated families, each run through the real code and the extracted Gallina model: (R) requires-python "
         "strings (comma lists of >=,<,==,!=,~=,<=,>,bare and wildcard clauses with 1-4 components near the interpreter "
@@ -47,7 +48,7 @@ RULE = ("four generated families, each run through the real code and the extract
         "(dotted/dashed/digit-bearing names, PEP 440 versions incl. epoch/pre/post/dev/local, build tags, compressed tag "
         "sets, all extensions, dumb-binary markers, ~15% malformed) -> filename_to_candidate's Candidate fields / None / "
         "exception; (P) HTML pages fed to LinksHTMLParser (through _scan_page_links with a fake session), the events the "
-        "real html.parser delivers are recorded and replayed on the model -> ordered (candidate, href) list; (L/H) find-links "
+        "real html.parser delivers are recorded and replayed on the model -> ordered (candidate, href) list; anchors that are never closed are generated, and every third page is served after a redirect: the link base of every candidate must be the address of the page served; (L/H) find-links "
         "directories and resolve_candidate hash/URL; (Q) HISTORIES of 2-5 resolve_candidate calls that share one wheel directory, "
         "against two or three indexes serving different bytes under one file name (links relative/absolute/rooted, with a true "
         "sha256 fragment, without one, md5, doubled or trailing fragments, a digest of other bytes) -> per step which bytes the "
@@ -57,7 +58,7 @@ TRUSTED_BASE = [
     "T1 harness/translate.py: replace chain of normalize_project_name -> gen/NameConsts.v (shared with C17; used by C14_sdist_name_normalises)",
     "T1 harness/tr_c14.py: AST skeletons of filename_to_candidate, _wheel_filename_to_candidate, _tar_gz_filename_to_candidate, "
     "parse_source_filename, check_python_compatibility, _check_py_constraint, LinksHTMLParser.{__init__,handle_starttag,handle_data}, "
-    "both resolve_candidate, _find_all_links must equal the recorded shape; every literal (extension lists, dumb-binary markers, "
+    "both resolve_candidate, _find_all_links must equal the recorded shape; _scan_page_links is read for the address it hands to the page parser (response.url / an expression free of the response / anything else fails closed); every literal (extension lists, dumb-binary markers, "
     "indexes, separators, OPS keys and lambda comparisons, dotted_parts table, ~= format, attribute names, hash separators) -> gen/ConstsC14.v",
     "T2 harness/c14.py: generators, event recorder (subclass of the real LinksHTMLParser), fake requests session, canonicalisation "
     "(tag sets and platform sets sorted, versions as enc440 tokens)",
@@ -1542,7 +1543,7 @@ LEVEL_TEXT = ("Theorems over Gallina transcriptions of filename_to_candidate / _
               "check_python_compatibility / _check_py_constraint and LinksHTMLParser: wheel and sdist file-name round trips for all "
               "well-formed components, agreement of the requires-python gate with PEP 440 containment for every interpreter version "
               "on the component-independent forms, fail-open on malformed declarations, exactness of the offered list over all event "
-              "streams, hash = link fragment; tied to /repo by AST skeletons + generated constants (T1) and differential execution (T2).")
+              "streams, hash = link fragment, every candidate of a page carries the address of the page that was served (after a redirect not the one asked for); tied to /repo by AST skeletons + generated constants (T1) and differential execution (T2).")
 LEVEL_NOTE = ("Version-string parsing is an oracle (packaging) on both sides; html.parser tokenisation, urljoin and sha256 are trusted "
               "(sha256 collision free; an index advertises only true digests); after the two repairs (anchor scope, local version labels) the "
               "sdist round trip and the DOM-level page statement are proved at full strength; through filename_to_candidate the sdist statement "
